@@ -66,10 +66,17 @@ func (c *caseCfg) opLines() []string {
 		if q.wild {
 			u = "wild"
 		}
-		ops = append(ops, "quota "+proto.Enc(q.id)+" kind="+q.kind+" url="+u)
+		ql := "quota " + proto.Enc(q.id) + " kind=" + q.kind + " url=" + u
+		if len(q.methods) > 0 {
+			ql += " m=" + strings.Join(q.methods, ",")
+		}
+		ops = append(ops, ql)
 	}
 	for _, f := range c.flows {
 		fl := "flow " + proto.Enc(f.name) + " kind=" + f.kind
+		if f.url != "" && f.url != "x" {
+			fl += " u=" + f.url
+		}
 		if len(f.methods) > 0 {
 			fl += " m=" + strings.Join(f.methods, ",")
 		}
@@ -351,7 +358,11 @@ func genCase(r *prng.R, id string) proto.Case {
 			if r.Chance(60) {
 				kind = "concurrent"
 			}
-			c.quotas = append(c.quotas, quotaDef{id: fmt.Sprintf("q%d", i+1), kind: kind, wild: r.Chance(50)})
+			q := quotaDef{id: fmt.Sprintf("q%d", i+1), kind: kind, wild: r.Chance(50)}
+			if r.Chance(45) { // quotas of one URL pattern with different method filters: separate system flows on one node
+				q.methods = [][]string{{"GET"}, {"POST"}, {"PUT"}}[r.Intn(3)]
+			}
+			c.quotas = append(c.quotas, q)
 		}
 	}
 	ops := c.opLines()
@@ -615,6 +626,74 @@ func pick1(r *prng.R, key string, f *flowDef, dir string) string {
 	return ""
 }
 
+// ---------------------------------------------------------------- several URL patterns, overlapping transactions
+
+// genPairCase: k user flows on the wildcard pattern host/*, flows on host/x and host/y; transactions to both URLs,
+// sequentially and OVERLAPPING (`pair`: the first parked inside its first probe while the second is served).
+func genPairCase(r *prng.R, id string) proto.Case {
+	c := &caseCfg{ptypes: vocab}
+	k := r.Range(1, 6) // at most 8 flows in all: Go's iteration order of a map of <= 8 entries is a rotation of the insertion order
+	var order []string
+	mk := func(name, url string) *flowDef {
+		f := &flowDef{name: name, kind: "user", url: url}
+		f.procs = [][2]string{{"A", "PU"}, {"B", prng.Pick(r, []string{"PU", "PA"})}}
+		f.req = []connDef{{sStart, endp{'P', "A", ""}}, {endp{'P', "A", ""}, endp{'P', "B", ""}}, {endp{'P', "B", pick1(r, "B", f, "req")}, sEnd}}
+		if r.Chance(50) {
+			f.res = []connDef{{sStart, endp{'P', "B", ""}}, {endp{'P', "B", pick1(r, "B", f, "res")}, sEnd}}
+		} else {
+			f.res = []connDef{{sStart, sEnd}}
+		}
+		if url == "wild" && r.Chance(10) {
+			genFilter(r, f)
+		}
+		return f
+	}
+	for i := 1; i <= k; i++ {
+		f := mk(fmt.Sprintf("w%d", i), "wild")
+		c.flows = append(c.flows, f)
+		order = append(order, f.name)
+	}
+	for i, u := range []string{"x", "y", "x", "y"} {
+		if i >= 2 && (k > 4 || !r.Chance(30)) {
+			continue
+		}
+		f := mk(fmt.Sprintf("%s%d", u, i/2+1), u)
+		c.flows = append(c.flows, f)
+		order = append(order, f.name)
+	}
+	prng.Shuffle(r, order)
+	ops := c.opLines()
+	ops = append(ops, "load order="+strings.Join(order, ","))
+	orc := func() string {
+		var items []string
+		for _, f := range c.flows {
+			if r.Chance(30) {
+				items = append(items, f.name+"/B/req=n:"+proto.Enc(prng.Pick(r, []string{"", "a", "b"})))
+			}
+		}
+		return joinOr(items, ",")
+	}
+	us := []string{"x", "y"}
+	for n := 0; n < 5; n++ {
+		switch r.Intn(3) {
+		case 0:
+			dir := "req"
+			if r.Chance(30) {
+				dir = "res"
+			}
+			ops = append(ops, "txn dir="+dir+" o="+orc()+" u="+prng.Pick(r, us))
+		default:
+			u1 := prng.Pick(r, us)
+			u2 := "y"
+			if u1 == "y" || r.Chance(15) {
+				u2 = "x"
+			}
+			ops = append(ops, "pair u1="+u1+" o1="+orc()+" u2="+u2+" o2="+orc())
+		}
+	}
+	return proto.Case{ID: id, Ops: ops}
+}
+
 // ---------------------------------------------------------------- exhaustive small scope (thorough tier)
 
 type candConn struct{ c connDef }
@@ -728,6 +807,9 @@ func gen(r *prng.R, f proto.Flags, emit func(proto.Case)) {
 	}
 	for k := 0; k < n/2; k++ {
 		emit(genBorrowCase(r.Fork(), fmt.Sprintf("b%d", k+1)))
+	}
+	for k := 0; k < n/4; k++ {
+		emit(genPairCase(r.Fork(), fmt.Sprintf("p%d", k+1)))
 	}
 	if f.Tier == "thorough" {
 		genExhaustive(emit)
